@@ -213,7 +213,6 @@ func (w *World) exchangeBatch(batch *Batch, add []ID, rem []ID,
 	if len(add) == 0 && len(rem) == 0 {
 		panic("at least one component required to add or remove")
 	}
-	lock := w.lock()
 
 	relRemoved := false
 	tables := w.storage.getBatchTables(batch)
@@ -237,6 +236,10 @@ func (w *World) exchangeBatch(batch *Batch, add []ID, rem []ID,
 		})
 	}
 	w.storage.slices.tables = tables[:0]
+
+	// Lock only after the arguments are validated for all tables,
+	// so that a panic does not leave the world locked.
+	lock := w.lock()
 
 	if len(rem) > 0 {
 		if w.storage.observers.HasObservers(OnRemoveComponents) {
@@ -437,7 +440,6 @@ func (w *World) setRelationsBatch(batch *Batch, relations []relationID, fn func(
 	if len(relations) == 0 {
 		panic("no relations specified")
 	}
-	lock := w.lock()
 	hasRemoveObs := w.storage.observers.HasObservers(OnRemoveRelations)
 	hasAddObs := w.storage.observers.HasObservers(OnAddRelations)
 
@@ -454,6 +456,10 @@ func (w *World) setRelationsBatch(batch *Batch, relations []relationID, fn func(
 		}
 	}
 	w.storage.slices.tables = tables[:0]
+
+	// Lock only after the arguments are validated for all tables,
+	// so that a panic does not leave the world locked.
+	lock := w.lock()
 
 	// Events for removed relation targets are emitted before the entire batch.
 	if hasRemoveObs {
